@@ -175,6 +175,33 @@ func c11Case(w *core.Worker, i int) {
 			w.Case(digest+"/"+variant, delivered)
 		}
 	}
+	// the publishing step itself is refused (the rename of the temp file over the table answers EPERM: a sticky directory, a
+	// table owned by somebody else, a read-only bind mount): the COMMIT fails, and that is one more way of ending — from the
+	// first rename on, or only from the second (the first table is published, the rest is not)
+	if !p.ReadOnly {
+		for _, when := range []string{"1+", "2+"} {
+			dd := filepath.Join(w.Work, "var")
+			_ = os.RemoveAll(dd)
+			copyDir(base, dd)
+			res := core.RunProc(core.ProcOpts{Dir: dd, Args: csvqArgs("-q", "-f", "JSONL", "--wait-timeout", "2", p.Text()), Timeout: 120 * time.Second,
+				Prefix: []string{"strace", "-f", "-o", "/dev/null", "-e", "trace=rename,renameat,renameat2", "-e", "inject=rename,renameat,renameat2:error=EPERM:when=" + when}})
+			variant := "rename-refused:" + when
+			for _, n := range core.TakeSnap(dd).Names() {
+				if core.IsControlFile(n) {
+					w.Violation("leftover-control-file@rename-refused", fmt.Sprintf("[%s] control file %s left in the repository after csvq ended (exit %d): %s", variant, n, res.Code, truncateStr(res.Stderr, 200)),
+						txReplay{Files: small(p.Files), Program: p.Text(), Variant: variant})
+				}
+			}
+			if strings.Contains(res.Stderr, "Fatal Error") || strings.Contains(res.Stderr, "panic:") {
+				w.Violation("internal-failure", fmt.Sprintf("[%s] %s", variant, truncateStr(res.Stderr, 300)), txReplay{Files: small(p.Files), Program: p.Text(), Variant: variant})
+			}
+			if strings.Contains(res.Stderr, "failed to commit") {
+				w.Count("commits_refused_at_the_rename", 1)
+			}
+			w.Note("signal_points", "rename-refused")
+			w.Case(digest+"/"+variant, strings.Contains(res.Stderr, "failed to commit"))
+		}
+	}
 	// two signals in a row at one point
 	if len(pts) > 2 {
 		pt := pts[r.Intn(len(pts))]
